@@ -215,7 +215,7 @@ class HistoryMonitor(hist.Monitor):
 
 
 def n_cases(tier):
-    return 480 if tier == "quick" else 50000
+    return 420 if tier == "quick" else 25000
 
 
 def gen_case(rng, tier, index):
